@@ -106,7 +106,9 @@ func run(raw json.RawMessage) driver.Result {
 	if in.K == "static" {
 		T = reflect.TypeOf(StaticCfg{})
 	} else {
-		T = rty.GenStruct(r, rty.AllOpts(in.Depth, in.Width), 0)
+		o := rty.AllOpts(in.Depth, in.Width)
+		o.Twins = true
+		T = rty.GenStruct(r, o, 0)
 	}
 	defaults := reflect.New(T)
 	rty.GenValue(r, defaults.Elem(), rty.VOpts{NilNum: 1, NilDen: 3}, 0)
